@@ -279,6 +279,45 @@ class World08(World):
         self.event("artefact_variant", op["id"], op["kind"])
         return r
 
+    def op_hand_edit(self, op, rng):
+        """A DIFFERENT value made by editing data by hand (dataclasses.replace, as docs/example_modify.md does):
+        one more (unreachable) block at the end, or one jump operand replaced by the bare integer of its target.
+        It encodes differently, so it must not compare equal to the value it was made from."""
+        import code_data
+
+        s = self.slots[op["in"][0]]
+        d = s.value
+        try:
+            if op["kind"] == "append_block":
+                extra = (code_data.Instruction("NOP", line_number=d.first_line_number), code_data.Instruction("NOP"))
+                new = dataclasses.replace(d, blocks=d.blocks + (extra,))
+            else:
+                hit = None
+                for bi, blk in enumerate(d.blocks):
+                    for ii, ins in enumerate(blk):
+                        if type(ins.arg).__name__ == "Jump" and not ins.arg.relative:
+                            hit = (bi, ii, ins)
+                            break
+                    if hit:
+                        break
+                if hit is None:
+                    self.count("hand_edit_not_applicable")
+                    return None
+                bi, ii, ins = hit
+                blk = d.blocks[bi]
+                blk2 = blk[:ii] + (dataclasses.replace(ins, arg=ins.arg.target, _n_args_override=None),) + blk[ii + 1:]
+                new = dataclasses.replace(d, blocks=d.blocks[:bi] + (blk2,) + d.blocks[bi + 1:])
+        except Exception as e:
+            self.count("hand_edit_failed_" + type(e).__name__)
+            return None
+        r = self.add_slot(op, "data", new, s.lineage, s.route + ["edit:" + op["kind"]], parent=s)
+        r.decoded = False
+        self.faults_fired += 1
+        self.count("fault_hand_edit_" + op["kind"])
+        self.event("hand_edit", op["id"], op["kind"])
+        self.enter_pool(r)
+        return r
+
     def op_marshal_trip(self, op, rng):
         r = self._reload(op, lambda c: marshal.loads(marshal.dumps(c)), "marshal_trip", kind="code")
         return r
@@ -316,6 +355,22 @@ class World08(World):
             if out[0] != "ok" or out[1] != (False, False, True):
                 self.violate("V2-foreign-comparison", rs, type(foreign).__name__, {"out": repr(out)[:120]})
                 return
+        # a part never equals one of its own field values of another type (Jump(3) is not 3, Name('a') is not 'a')
+        parts0 = []
+        walk_dataclasses(v, parts0, 120)
+        seen_types = set()
+        for obj in parts0:
+            if type(obj) in seen_types and len(seen_types) > 8:
+                continue
+            seen_types.add(type(obj))
+            for f in dataclasses.fields(obj):
+                fv = getattr(obj, f.name)
+                if type(fv) is type(obj) or dataclasses.is_dataclass(fv):
+                    continue
+                out = sched._outcome(lambda: (obj == fv, fv == obj))
+                if out[0] != "ok" or out[1] != (False, False):
+                    self.violate("V2-foreign-comparison", type(obj).__name__, "own-field:" + f.name, {"value": repr(fv)[:60], "out": repr(out)[:80]})
+                    return
         # immutability of every dataclass instance inside (sampled by position)
         parts = []
         walk_dataclasses(v, parts)
@@ -582,7 +637,7 @@ def collect_constants(d, out):
 
 def route_tag(s):
     """Route class of a pool member, for fingerprints: the identity-relevant steps only."""
-    keep = [x for x in s.route if x in ("normalize", "from_json_data", "pickle_trip", "clone", "marshal_trip", "deepcopy_data", "graft") or x.startswith("artefact:")]
+    keep = [x for x in s.route if x in ("normalize", "from_json_data", "pickle_trip", "clone", "marshal_trip", "deepcopy_data", "graft") or x.startswith("artefact:") or x.startswith("edit:")]
     # collapse repeats
     out = []
     for x in keep:
@@ -660,7 +715,7 @@ def swarm_c08(rng, tier):
     }
 
 
-ROUTE_STEPS = ["normalize", "code_trip", "json_trip", "pickle_trip", "clone", "deepcopy_data", "marshal_decode", "recompile", "artefact_variant"]
+ROUTE_STEPS = ["normalize", "code_trip", "json_trip", "pickle_trip", "clone", "deepcopy_data", "marshal_decode", "recompile", "artefact_variant", "hand_edit"]
 
 
 def run_c08(seed, tree, tier, known):
@@ -765,6 +820,8 @@ def run_c08(seed, tree, tier, known):
                 c2 = w.execute({"op": "marshal_trip", "in": [s.id]}, rng)
                 if c2 is not None:
                     new = w.execute({"op": "from_code", "in": [c2.id]}, rng)
+        elif k == "hand_edit":
+            new = w.execute({"op": "hand_edit", "in": [base.id], "kind": rng.choice(["append_block", "jump_to_int"])}, rng)
         elif k == "artefact_variant":
             s, cop = rng.choice(codes)
             if s.id in w.slots:
